@@ -169,6 +169,14 @@ inline Args parse_args(int argc, char **argv) {
       exit(2);
     }
   }
+  // harnesses may change directory: make file arguments absolute
+  for (std::string *f : {&a.out, &a.replay}) {
+    if (!f->empty() && (*f)[0] != '/') {
+      char cwd[4096];
+      if (getcwd(cwd, sizeof(cwd)))
+        *f = std::string(cwd) + "/" + *f;
+    }
+  }
   return a;
 }
 
